@@ -45,6 +45,16 @@ func __in(x any, s any) bool { return true }
 func __div(a, b int) int { return 0 }
 func __mod(a, b int) int { return 0 }
 func __enum(s any, m any, f any) bool { return true }
+
+// gmap: a mathematical (ghost) finite map; values of this type are not heap objects.
+type gmap[K comparable, V any] map[K]V
+func __upd[K comparable, V any](m gmap[K, V], k K, v V) gmap[K, V] { return m }
+func __del[K comparable, V any](m gmap[K, V], k K) gmap[K, V] { return m }
+func __emptymap[K comparable, V any]() gmap[K, V] { return nil }
+func __called(name string) bool { return true }
+func __lastret(name string, i int) any { return nil }
+func __arg(i int) any { return nil }
+func __recv() any { return nil }
 `
 
 // FuncInfo is one function declaration of a loaded package.
@@ -151,6 +161,9 @@ func Load(repo string, patterns []string) (*Program, error) {
 	}
 	for _, p := range pkgs {
 		for _, e := range p.Errors {
+			if strings.Contains(e.Error(), GhostFileName) && strings.Contains(e.Error(), "imported and not used") {
+				continue
+			}
 			prog.Errors = append(prog.Errors, e.Error())
 		}
 		prog.Pkgs[p.PkgPath] = p
